@@ -49,6 +49,7 @@ def has_call(s, m, top_only=True):
 def run(chk):
     units = core.library_units()
     fx = chk.facts(units)
+    C03.run_lostupdate(chk, fx, "C04")
     fh = chk.facts(["opm/input/eclipse/Schedule/Schedule.cpp"], files_re="^/repo/opm/input/eclipse/Schedule/", fn_re="^$")
     for q, r in fh.recs.items():
         fx.recs.setdefault(q, r)
